@@ -23,7 +23,7 @@ FILES = ["/repo/sdk/src/utils/merkle.rs"]
 
 
 def caps(tier):
-    return dict(payload=6, fmax=3) if tier == "quick" else dict(payload=8, fmax=4)
+    return dict(payload=6, fmax=3, payload2=6) if tier == "quick" else dict(payload=8, fmax=4, payload2=6)
 
 
 # ---- one-key map model --------------------------------------------------------------------------
@@ -146,10 +146,11 @@ def make_queries(tier):
             if E.mode != "symbolic":
                 return replay(E, nsplits, large)
             I = E.I
-            I.buffer_cap = 8 + C["payload"]
+            PAY = C["payload"] if nsplits == 1 else C["payload2"]   # two symbolic cut points: the smaller stated bound
+            I.buffer_cap = 8 + PAY
             # standard header: the caller feeds the 8-byte size/type header followed by the payload and the routine
             # skips it; large (64-bit) header: the routine skips nothing, the caller feeds the payload only
-            total_cap = (0 if large else 8) + C["payload"]
+            total_cap = (0 if large else 8) + PAY
             I.loop_bound = total_cap + 2
             whole = E.str("mdat", total_cap, "ascii", min_len=(1 if large else 8))
             F = E.int("leaf_size", C["fmax"])
